@@ -9,8 +9,11 @@ Sigs == { Diag(<<<<1, 4>>, <<1, 4>>>>), Diag(<<<<1, 16>>, <<1, 1>>>>) }
 Means(d) == { [k |-> "const", th |-> <<1>>], [k |-> "lin", th |-> Pre(<<1, 1, -1>>, 1 + d)] }
 Queries(d) == IF d = 1 THEN << <<1>>, <<3>>, <<-1>> >> ELSE << <<1, 1>>, <<0, 0>>, <<2, 0>> >>
 VARIABLES pb, cx, out
-Init == /\ \E X \in XSets, ys \in YSets, sg \in Sigs : \E ja \in {-2, 0, 2}, mf \in Means(Len(X[1])) :
+\* a steeply sloping prior mean (40 per unit): improvement z-scores of several hundred (far-positive side)
+Init == /\ \/ \E X \in XSets, ys \in YSets, sg \in Sigs : \E ja \in {-2, 0, 2}, mf \in Means(Len(X[1])) :
                pb = [X |-> X, y |-> ys, sig |-> sg, kern |-> Se(Len(X[1]), ja), mean |-> mf]
+           \/ \E X \in {<< <<0>>, <<1>> >>}, ys \in {<<1, -2>>, <<0, 3>>}, sg \in {Diag(<<<<1, 4>>, <<1, 4>>>>)} :
+               pb = [X |-> X, y |-> ys, sig |-> sg, kern |-> Se(1, 0), mean |-> [k |-> "lin", th |-> <<1, 40>>]]
         /\ cx = FullContext(pb) /\ out = 0
 Q == Queries(Len(pb.X[1]))
 \* split a SymLin derivative (rational slope + c ln2) into its two rational parts
